@@ -189,6 +189,18 @@ fn run_family(rep: &mut Report, fam: &str, thorough: bool, only: Option<&Value>)
                     all.push((0..l).map(|i| ((x >> i) & 1) as u8).collect());
                 }
             }
+            // The deframer behaves differently once it has seen a flag: every
+            // bit string again, after a flag.
+            if only.is_none() {
+                let n = all.len();
+                for i in 0..n {
+                    if all[i].len() <= 12 {
+                        let mut b = vcommon::specs::FLAG.to_vec();
+                        b.extend(&all[i]);
+                        all.push(b);
+                    }
+                }
+            }
             if let Some(o) = only {
                 all = vec![o["bits"].as_str().unwrap().bytes().map(|b| b - b'0').collect()];
             }
